@@ -60,7 +60,7 @@ namespace TrRouting
           {
             throw ParameterException(ParameterException::Type::INVALID_PLACE);
           }
-          place = Point(std::stod(latitudeLongitudeVector[1]), std::stod(latitudeLongitudeVector[0]));
+          place = Point(CommonParameters::getCoordinateValue(latitudeLongitudeVector[1]), CommonParameters::getCoordinateValue(latitudeLongitudeVector[0]));
         }
         catch (...)
         {
